@@ -165,7 +165,9 @@ Definition handed (b : backend) (r : request) : request :=
 (* ------------------------------------------------------------------------------------ *)
 (* 3. the call as a fork tree over the request's objects *)
 
-Inductive field := FStruct | FUrl | FHdr | FQry | FPar | FBody.
+(* FHdr: the header MAP (keys, and which value slice each key refers to); FHdrVals: the
+   backing arrays of its value slices (what `h[k][i] = v` writes) *)
+Inductive field := FStruct | FUrl | FHdr | FHdrVals | FQry | FPar | FBody.
 Inductive owner :=
 | OClient                 (* the request the caller passed in: struct, URL, maps, "the reader
                              its Body field points to" *)
@@ -176,7 +178,7 @@ Record hobj := Ob { o_own : owner; o_fld : field }.
 
 Definition field_eqb (a b : field) : bool :=
   match a, b with
-  | FStruct, FStruct | FUrl, FUrl | FHdr, FHdr | FQry, FQry | FPar, FPar | FBody, FBody => true
+  | FStruct, FStruct | FUrl, FUrl | FHdr, FHdr | FHdrVals, FHdrVals | FQry, FQry | FPar, FPar | FBody, FBody => true
   | _, _ => false
   end.
 Definition owner_eqb (a b : owner) : bool :=
@@ -207,6 +209,7 @@ Definition heap_of (r : request) : hobj -> val :=
                | FStruct => VStruct (q_method r) (q_path r)
                | FUrl => VUrl
                | FHdr => VMap (q_hdr r)
+               | FHdrVals => VMap (q_hdr r)
                | FQry => VMap (q_qry r)
                | FPar => VPar (q_par r)
                | FBody => VBody (q_body r)
@@ -225,7 +228,8 @@ Definition sh (f : field) : hobj := Ob OClone f.
    is not touched: the clone's struct refers to the client's map. *)
 Definition clone_accs (r : request) : list acc :=
   [Rd (cl FStruct); Rd (cl FUrl); Wr (sh FUrl) VUrl;
-   Rd (cl FHdr); Wr (sh FHdr) (VMap (copy_mmap (q_hdr r)));
+   Rd (cl FHdr); Rd (cl FHdrVals); Wr (sh FHdrVals) (VMap (copy_mmap (q_hdr r)));
+   Wr (sh FHdr) (VMap (copy_mmap (q_hdr r)));
    Rd (cl FPar); Wr (sh FPar) (VPar (copy_par (q_par r)))] ++
   match q_body r with
   | None => []
@@ -268,9 +272,9 @@ Record stackcfg := { k_qs : bool (* input_query_strings non-empty and dropping s
                      k_hs : bool (* same for input_headers *);
                      k_gql : gql }.
 
-Record sview := { v_struct : hobj; v_hdr : hobj; v_qry : hobj; v_par : hobj; v_body : hobj }.
+Record sview := { v_struct : hobj; v_hdr : hobj; v_hvals : hobj; v_qry : hobj; v_par : hobj; v_body : hobj }.
 Definition root_view (root : owner) (qry : hobj) : sview :=
-  {| v_struct := Ob root FStruct; v_hdr := Ob root FHdr; v_qry := qry; v_par := Ob root FPar;
+  {| v_struct := Ob root FStruct; v_hdr := Ob root FHdr; v_hvals := Ob root FHdrVals; v_qry := qry; v_par := Ob root FPar;
      v_body := Ob root FBody |}.
 
 Definition stack_accs (priv : nat -> owner) (k : stackcfg) (v0 : sview) : list acc :=
@@ -280,18 +284,18 @@ Definition stack_accs (priv : nat -> owner) (k : stackcfg) (v0 : sview) : list a
   let '(a1, v1) :=
     if k_qs k then
       ([Rd (v_struct v0); Rd (v_qry v0); Wr (Ob (priv 0) FQry) VUnset; Wr (Ob (priv 0) FStruct) VUnset],
-       {| v_struct := Ob (priv 0) FStruct; v_hdr := v_hdr v0; v_qry := Ob (priv 0) FQry;
+       {| v_struct := Ob (priv 0) FStruct; v_hdr := v_hdr v0; v_hvals := v_hvals v0; v_qry := Ob (priv 0) FQry;
           v_par := v_par v0; v_body := v_body v0 |})
     else ([Rd (v_struct v0); Rd (v_qry v0)], v0) in
-  (* header filter *)
+  (* header filter: a new map that refers to the SAME value slices *)
   let '(a2, v2) :=
     if k_hs k then
       ([Rd (v_struct v1); Rd (v_hdr v1); Wr (Ob (priv 1) FHdr) VUnset; Wr (Ob (priv 1) FStruct) VUnset],
-       {| v_struct := Ob (priv 1) FStruct; v_hdr := Ob (priv 1) FHdr; v_qry := v_qry v1;
+       {| v_struct := Ob (priv 1) FStruct; v_hdr := Ob (priv 1) FHdr; v_hvals := v_hvals v1; v_qry := v_qry v1;
           v_par := v_par v1; v_body := v_body v1 |})
     else ([Rd (v_struct v1); Rd (v_hdr v1)], v1) in
   (* GraphQL: source is Params (query) or the body (mutation); new body reader, PRIVATE copy
-     of the header map, for the GET transport a PRIVATE copy of the query map; Body, Method,
+     of the header map (same value slices; the two entries it sets get fresh slices), for the GET transport a PRIVATE copy of the query map; Body, Method,
      Headers, Query fields of the struct it was handed are overwritten *)
   let src (m : bool) := if m then [Rd (v_struct v2); Rd (v_body v2); Wr (v_body v2) VUnset]
                         else [Rd (v_struct v2); Rd (v_par v2)] in
@@ -301,18 +305,18 @@ Definition stack_accs (priv : nat -> owner) (k : stackcfg) (v0 : sview) : list a
     | GPost m =>
         (src m ++ [Wr (Ob (priv 2) FBody) VUnset; Rd (v_hdr v2); Wr (Ob (priv 2) FHdr) VUnset;
                    Wr (v_struct v2) VUnset],
-         {| v_struct := v_struct v2; v_hdr := Ob (priv 2) FHdr; v_qry := v_qry v2;
+         {| v_struct := v_struct v2; v_hdr := Ob (priv 2) FHdr; v_hvals := v_hvals v2; v_qry := v_qry v2;
             v_par := v_par v2; v_body := Ob (priv 2) FBody |})
     | GGet m =>
         (src m ++ [Wr (Ob (priv 2) FBody) VUnset; Rd (v_hdr v2); Wr (Ob (priv 2) FHdr) VUnset;
                    Rd (v_qry v2); Wr (Ob (priv 2) FQry) VUnset; Wr (v_struct v2) VUnset],
-         {| v_struct := v_struct v2; v_hdr := Ob (priv 2) FHdr; v_qry := Ob (priv 2) FQry;
+         {| v_struct := v_struct v2; v_hdr := Ob (priv 2) FHdr; v_hvals := v_hvals v2; v_qry := Ob (priv 2) FQry;
             v_par := v_par v2; v_body := Ob (priv 2) FBody |})
     end in
   (* load balancer: URL = host + Path, RawQuery from Query.Encode(): a new URL object *)
   let a4 := [Rd (v_struct v3); Rd (v_qry v3); Wr (Ob (priv 3) FUrl) VUnset; Wr (v_struct v3) VUnset] in
   (* backend (http proxy / stub): reads method, URL, headers; drains the body *)
-  let a5 := [Rd (v_struct v3); Rd (Ob (priv 3) FUrl); Rd (v_hdr v3); Rd (v_body v3); Wr (v_body v3) VUnset] in
+  let a5 := [Rd (v_struct v3); Rd (Ob (priv 3) FUrl); Rd (v_hdr v3); Rd (v_hvals v3); Rd (v_body v3); Wr (v_body v3) VUnset] in
   a0 ++ a1 ++ a2 ++ a3 ++ a4 ++ a5.
 
 (* the GraphQL GET stage as it was before the repair (seeded/C03-revert-graphql-private-maps):
@@ -324,3 +328,17 @@ Definition shadow_stack (k : stackcfg) : prog :=
   map Acc (stack_accs OShadowPriv k (root_view OClone (cl FQry))).
 Definition regular_stack (k : stackcfg) : prog :=
   map Acc (stack_accs ORegPriv k (root_view OClient (cl FQry))).
+
+(* ---- value slices ---- *)
+(* a stage that rewrites header values in place (h[k][0] = "redacted": a request modifier may),
+   on a request whose header map is [hdr] and whose value slices are [vals] *)
+Definition inplace_header_writer (hdr vals : hobj) : list acc := [Rd hdr; Rd vals; Wr vals VUnset].
+
+(* CloneRequestHeaders without the element copy (m[k] = vs[:len(vs):len(vs)]): a new map whose
+   entries alias the client's backing arrays - no write to (sh FHdrVals), and the clone's view
+   of the value slices is the client's object *)
+Definition aliasing_clone_accs (r : request) : list acc :=
+  [Rd (cl FStruct); Rd (cl FUrl); Wr (sh FUrl) VUrl;
+   Rd (cl FHdr); Wr (sh FHdr) (VMap (q_hdr r));
+   Rd (cl FPar); Wr (sh FPar) (VPar (copy_par (q_par r)));
+   Wr (sh FStruct) (VStruct (q_method r) (q_path r))].
